@@ -81,9 +81,13 @@ class LSkel(Skel):
         return Skel.ops(self, e)
 
 
+LEMPTY = set()
+
+
 def extract_all(facts):
     sk = LSkel(facts)
     out = {}
+    LEMPTY.clear()
     for p, it in sorted(facts.hir.items()):
         if it.get("body") is None or "::tests" in p or "::test" in p or it["defkind"] not in ("Fn", "AssocFn", "Closure"):
             continue
@@ -93,6 +97,7 @@ def extract_all(facts):
             continue            # closures are walked as part of their parent; derived / formatting impls are not productions
         s = to_json(sk.of_fn(it))
         if not s:
+            LEMPTY.add(it["name"])
             continue
         im = (it.get("impl") or {})
         st = im.get("self_ty") or ""
@@ -132,7 +137,10 @@ def rule_L_SKELETON(ctx, which=("lexical", "fold", "term"), floor=12):
         d = diff(r["skeleton"], s)
         ctx.ob("L-SKELETON", name, d is None, d or "", site)
     for name in sorted(n for n in set(ref) - set(got) if n.split(" ")[0] in which):
-        ctx.ob("L-SKELETON", name, False, "reviewed skeleton has no function any more")
+        if name.rsplit("::", 1)[-1].split(" ")[-1].split("#")[0] in LEMPTY:
+            ctx.ob("L-SKELETON", name, False, "the function's skeleton is empty now (its reviewed skeleton is gone)")
+        else:
+            ctx.extra.setdefault("reviewed_functions_removed", []).append(name)       # inlined / renamed: the callers are compared with their own skeletons
 
 
 if __name__ == "__main__":
